@@ -397,6 +397,26 @@ def contains(ctx, F):
             cmp = ({'ge': 'Ge', 'gt': 'Gt', 'le': 'Le', 'lt': 'Lt'}.get(c[1].split('::')[-1]), c[2][0], c[2][1])
         ok = cmp is not None and cmp[0] == 'Ge' and cmp[1][0] == 'param' and any(x == ('const', -1e-08) for x in walk(cmp[2]))
         why = fmt(c) if c else ''
+    if not ok and not is_call(ret, 'Iterator::all'):
+        # the same test written as a loop with an early `return false`: false exactly under a row that is not >= -1e-8, true when the rows
+        # of distance_raw(self, point) are exhausted
+        Rl = Resolver(b)
+        falses, trues, other = [], [], []
+        for bb, j, st in b.stmts():
+            if st['k'] == 'assign' and st['place']['local'] == 0 and not st['place']['proj']:
+                v = s(Rl.rvalue(st['rv'], bb, j))
+                (falses if v == ('const', False) else trues if v == ('const', True) else other).append((bb, literals(b, Rl, bb)))
+
+        def is_item(x):
+            x = s(x)
+            return is_call(x, 'Iterator::next') and any(is_call(y, 'AffFuncBase::distance_raw') and s(y[2]) == (('param', 'self'), ('param', 'point')) for y in walk(x))
+        okf = bool(falses) and all(any(l[0] == 'false' and s(l[1])[0] == 'bin' and s(l[1])[1] == 'Ge' and is_item(s(l[1])[2]) and
+                                       any(y == ('const', -1e-08) for y in walk(s(l[1])[3])) for l in lits) or
+                                   any(l[0] == 'false' and is_call(s(l[1]), 'PartialOrd::ge') and is_item(s(l[1])[2][0]) and
+                                       any(y == ('const', -1e-08) for y in walk(s(l[1])[2][1])) for l in lits) for _, lits in falses)
+        okt = bool(trues) and all(any(l[0] == 'is' and len(l) > 2 and set(l[2]) == {'None'} and is_item(l[1]) for l in lits) for _, lits in trues)
+        if okf and okt and not other:
+            ok = True
     (ctx.ok if ok else ctx.bad)('C14.R1', 'AffFuncBase::contains', 'all rows of b - A·p are >= -1e-8' if ok else 'contains is not all(distance_raw >= -1e-8): %s' % why, b.span)
 
 
